@@ -48,7 +48,7 @@ STUBS = ["urllib.request.urlopen -> in-process fake peer (responses, faults and 
 ASSUMPTIONS = ["acceptance is checked in one direction only: accepted => an independent strict reading accepts (the adapter re-joins tokens "
                "with single spaces, so some well-formed answers are legitimately refused)",
                "planner purity/threshold clauses are input-quantified and evaluated on the bundles the runs produce"]
-SHRINK_FIELDS = ["ops", "script"]
+SHRINK_FIELDS = ["ops", "script", "bundles"]
 
 PLANS = [
     {"plan": ["look up river", "reply"], "rationale": "because", "reflection": True},
@@ -74,9 +74,39 @@ WRAPS = ["plain", "fenced_json", "fenced_none", "fenced_py", "prose_before", "pr
 TRANSPORT = ["ok", "ok", "ok", "urlerror", "timeout", "non_utf8", "not_json_envelope", "response_not_string", "torn_envelope", "stall", "http_500"]
 
 
+_TAUS = [0.0, 0.0, 0.2, 0.4, 0.5, 0.8, 1.0]
+
+
+def _gen_bundle(r) -> Dict[str, Any]:
+    th, tl = r.choice(_TAUS), r.choice(_TAUS)
+    if tl > th:
+        th, tl = tl, th
+    pol: Dict[str, Any] = {}
+    if r.chance(0.85):
+        pol["tau_high"] = th
+    if r.chance(0.85):
+        pol["tau_low"] = tl
+    if r.chance(0.6):
+        pol["epsilon_edit"] = r.choice([0.0, 0.05, 0.1, 0.5])
+    nodes = [{"id": "n%d" % i, "label": r.choice(E.VOCAB), "delta": r.choice([0.0, 0.01, 0.05, 0.09, 0.1, 0.3, -0.2, -0.04])} for i in range(r.randint(0, 6))]
+    b: Dict[str, Any] = {
+        "cfg": {"t3": {"tokens": r.choice([0, 1, 5, 256]), "max_rag_loops": r.choice([0, 1])}, "t2": {"owner_scope": r.choice(["any", "agent", "world"]), "k_retrieval": r.choice([1, 2, 10])}},
+        "agent": {"caps": {"ops": r.choice([0, 1, 2, 3, 8])}},
+        "t2": {"metrics": {"sim_stats": {"max": r.choice([0.0, 0.05, 0.2, 0.39, 0.4, 0.41, 0.6, 0.79, 0.8, 0.95, 1.0, -0.3])}}},
+        "t1": {"touched_nodes": nodes}, "text": {"input": E.gen_text(r), "labels_from_t1": [n["label"] for n in nodes] if r.chance(0.5) else []},
+        "now": "2023-11-14T22:13:20+00:00"}
+    if pol or r.chance(0.5):
+        b["cfg"]["t3"]["policy"] = pol
+    if r.chance(0.4):
+        b["slice_caps"] = {"t3_ops": r.choice([0, 1, 2, 5])}
+    return b
+
+
 def generate(seed: int, tier: str) -> Dict[str, Any]:
     rng = Rng(seed)
     r = rng.stream("gen")
+    if r.chance(0.25):
+        return {"target": "bundle", "bundles": [_gen_bundle(rng.stream("bundle%d" % i)) for i in range(r.randint(1, 6))]}
     if r.chance(0.5):
         world = E.gen_world(rng.stream("world"), n_agents=r.randint(1, 2), bad_ts=False)
         raw = E.valid_cfg(rng.stream("config"), ["t1", "t2", "t3", "t3", "t4"], p=0.5)
@@ -393,9 +423,66 @@ def _turns(p: Dict[str, Any], stats: Dict[str, int]) -> List[Dict[str, Any]]:
     return viol
 
 
+def _bundles(p: Dict[str, Any], stats: Dict[str, int]) -> List[Dict[str, Any]]:
+    """The planner as a pure function of its bundle, against the documented rules (thresholds and caps incl. 0)."""
+    viol: List[Dict[str, Any]] = []
+
+    def bad(sig, detail):
+        if not any(v["sig"] == sig for v in viol):
+            viol.append({"cls": "planner", "sig": sig, "detail": detail})
+
+    for bi, b in enumerate(p["bundles"]):
+        stats["evaluations"] = stats.get("evaluations", 0) + 1
+        b0 = copy.deepcopy(b)
+        try:
+            plan = real_deliberate(b)
+            plan2 = real_deliberate(copy.deepcopy(b0))
+        except Exception as e:  # noqa: BLE001
+            bad("planner-raised:%s" % type(e).__name__, "bundle#%d: %r" % (bi, e))
+            continue
+        if b != b0:
+            bad("planner-mutates-bundle", "bundle#%d" % bi)
+        ops, ops2 = list(plan.ops), list(plan2.ops)
+        if [repr(o) for o in ops] != [repr(o) for o in ops2]:
+            bad("planner-not-a-function", "bundle#%d: %s vs %s" % (bi, ops, ops2))
+        pol = ((b0["cfg"]["t3"].get("policy")) or {})
+        th, tl, eps = float(pol.get("tau_high", 0.8)), float(pol.get("tau_low", 0.4)), float(pol.get("epsilon_edit", 0.10))
+        s = float(b0["t2"]["metrics"]["sim_stats"]["max"])
+        base_ops = int(b0["agent"]["caps"]["ops"])
+        cap = min(base_ops, int((b0.get("slice_caps") or {}).get("t3_ops", base_ops)))
+        ctxs = "bundle#%d s_max=%s tau_high=%s tau_low=%s eps=%s cap=%d policy=%s" % (bi, s, th, tl, eps, cap, pol)
+        if len(ops) > max(cap, 0):
+            bad("ops-exceed-cap", "%d ops; %s" % (len(ops), ctxs))
+        kinds = [getattr(o, "kind", type(o).__name__) for o in ops]
+        if ops and kinds[0] != "Speak":
+            bad("not-led-by-speak", "%s; %s" % (kinds, ctxs))
+        if ops:
+            labels = b0["text"]["labels_from_t1"] or [n.get("label") for n in b0["t1"]["touched_nodes"]]
+            want = "summary" if s >= th else (("assertion" if labels else "ack") if s >= tl else "question")
+            if getattr(ops[0], "intent", None) != want:
+                bad("intent-not-by-thresholds", "intent %r, documented %r; %s" % (getattr(ops[0], "intent", None), want, ctxs))
+            stats["intent_" + want] = stats.get("intent_" + want, 0) + 1
+        if "RequestRetrieve" in kinds and not (s < tl):
+            bad("retrieval-requested-above-low-threshold", ctxs)
+        if cap >= 2 and s < tl and "RequestRetrieve" not in kinds:
+            bad("retrieval-not-requested-below-low-threshold", ctxs)
+        for o in ops:
+            if getattr(o, "kind", "") == "EditGraph":
+                ids = sorted(e["id"] for e in o.edits)
+                want_ids = sorted(str(n["id"]) for n in b0["t1"]["touched_nodes"] if abs(float(n.get("delta", 0.0))) >= eps)
+                if not set(ids) <= set(want_ids) or (len(want_ids) <= 4 * max(cap - 1, 0) and ids != want_ids):
+                    bad("edit-selection-not-by-epsilon", "edits %s, nodes with |delta| >= %s are %s; %s" % (ids, eps, want_ids, ctxs))
+        if cap >= 2 and s >= tl and "EditGraph" not in kinds and any(abs(float(n.get("delta", 0.0))) >= eps for n in b0["t1"]["touched_nodes"]):
+            bad("edit-missing", ctxs)
+    return viol
+
+
 def execute(p: Dict[str, Any]) -> Dict[str, Any]:
     stats: Dict[str, int] = {"target_" + p["target"]: 1}
     faults: Dict[str, int] = {}
+    if p["target"] == "bundle":
+        viol = _bundles(p, stats)
+        return {"violations": viol, "stats": stats, "faults": faults, "nontrivial": True, "key": E.jdigest(p), "sim_s": 0.0, "log": E.jdigest([viol, stats])}
     if p["target"] == "peer":
         viol = _peer(p, stats, faults)
         nontrivial = any(s["wrap"] != "plain" or s["transport"] != "ok" for s in p["script"])
